@@ -127,16 +127,21 @@ var (
 	csx = coord{name: "x", kind: cScalar}
 	csa = coord{name: "a", kind: cScalar}
 	csb = coord{name: "b", kind: cScalar}
+	// sch with x = 0 has the identity as public key, log with b = 0 has the identity as base H: the
+	// library refuses identity points as public inputs by design (IsValid), so these are not statements
+	// with a witness "inside the documented range" and are left out of the completeness lattice
+	csxNZ = coord{name: "x", kind: cScalar, nz: true}
+	csbNZ = coord{name: "b", kind: cScalar, nz: true}
 )
 
 func systems() []*system {
 	var l []*system
 
 	// ---- sch ---------------------------------------------------------------------------------
-	l = append(l, &system{name: "sch", coords: []coord{csx}, conf: []coord{confGen}, chunks: 1, cheap: true,
+	l = append(l, &system{name: "sch", coords: []coord{csxNZ}, conf: []coord{confGen}, chunks: 1, cheap: true,
 		noRange: "group-order responses only",
 		build: func(pt point) *statement {
-			x := scalarFromBig(bi(csx, pt, nil))
+			x := scalarFromBig(bi(csxNZ, pt, nil))
 			var gen curve.Point
 			if pt["gen"] == "custom" {
 				gen = randPoint()
@@ -159,9 +164,9 @@ func systems() []*system {
 		}})
 
 	// ---- log ---------------------------------------------------------------------------------
-	l = append(l, &system{name: "log", coords: []coord{csa, csb}, chunks: 1, cheap: true, noRange: "group-order responses only",
+	l = append(l, &system{name: "log", coords: []coord{csa, csbNZ}, chunks: 1, cheap: true, noRange: "group-order responses only",
 		build: func(pt point) *statement {
-			a, b := scalarFromBig(bi(csa, pt, nil)), scalarFromBig(bi(csb, pt, nil))
+			a, b := scalarFromBig(bi(csa, pt, nil)), scalarFromBig(bi(csbNZ, pt, nil))
 			H := b.ActOnBase()
 			return &statement{pub: &zklog.Public{H: H, X: a.ActOnBase(), Y: a.Act(H)}, priv: &zklog.Private{A: a, B: b}, alts: commonAlts()}
 		},
